@@ -67,7 +67,10 @@ def _leading(s):
     return len(s) - len(s.lstrip(" "))
 
 
-def choose_widths(rng, crit, maxw, k):
+def choose_widths(rng, crit, maxw, k, sweep=False):
+    if sweep:
+        # every width within +-2 of every fit threshold of the value (true widths from the table)
+        return sorted({c + d for c in crit for d in (-2, -1, 0, 1, 2) if c + d >= 0})[:60]
     cand = set()
     for c in crit:
         for d in (-1, 0, 1):
@@ -84,8 +87,9 @@ def choose_widths(rng, crit, maxw, k):
     return out
 
 
-def eval_value(rec, v, tier_quick, n_cfg, tag):
-    """all checks for one value under `n_cfg` option sets x critical widths."""
+def eval_value(rec, v, tier_quick, n_cfg, tag, sweep=False):
+    """all checks for one value under `n_cfg` option sets x critical widths (`sweep`: all widths within +-2 of
+    every fit threshold)."""
     import lib_pretty as L
     from rich.pretty import pretty_repr, traverse
 
@@ -114,7 +118,7 @@ def eval_value(rec, v, tier_quick, n_cfg, tag):
         crit = set()
         L.ref_lines(tree, cell_len, 0, ind, True, crit)
         rec.note("depth:%d" % min(_depth(tree), 7))
-        widths = choose_widths(rng, crit, maxw, 2 if ci else 3)
+        widths = choose_widths(rng, crit, maxw, 2 if ci else 3, sweep=sweep)
         if ms not in heaps:
             heaps[ms] = L.enc_heap(v, ms)
         heap, root, table = heaps[ms]
@@ -384,6 +388,16 @@ def work(task):
         for i, v in enumerate(L.exhaustive_values()):
             if i % of == k:
                 eval_value(rec, v, quick, 2 if quick else 4, "exh")
+    elif kind == "boundary":
+        k, of = arg
+        for i, (v, cls) in enumerate(L.boundary_values()):
+            if i % of == k:
+                rec.note("boundary:" + cls)
+                eval_value(rec, v, quick, 1 if quick else 2, "boundary", sweep=True)
+        for _ in range(20 if quick else 200):  # mixed strings of boundary characters, as items and keys
+            s1, s2, s3 = (L.rand_boundary_string(rec.rng) for _ in range(3))
+            v = rec.rng.choice([[s1, s2, s3], {s1: s2, s3: [s1]}, (s1, (s2,)), {"k": {s1, s2}}])
+            eval_value(rec, v, quick, 1, "boundary-mix", sweep=True)
     elif kind == "rand":
         n, depth = arg
         for _ in range(n):
@@ -477,6 +491,7 @@ def run(ctx):
     P = 14
     tasks = [("fixed", rng.getrandbits(32), quick, None)]
     tasks += [("exh", rng.getrandbits(32), quick, (k, P)) for k in range(P)]
+    tasks += [("boundary", rng.getrandbits(32), quick, (k, P)) for k in range(P)]
     tasks += [("rand", rng.getrandbits(32), quick, (150, 4 if quick else 6)) for _ in range(40 if quick else 560)]
     tasks += [("cyc", rng.getrandbits(32), quick, 100) for _ in range(3 if quick else 50)]
     tasks += [("synth", rng.getrandbits(32), quick, 450) for _ in range(8 if quick else 120)]
@@ -497,6 +512,8 @@ def run(ctx):
         "bounded-exhaustive: every container kind x 0..3 children over %r, each wrapped in every kind and in one-element "
         "tuples (depth <= 3); seeded random typed values to depth %d over list/tuple/dict/set/frozenset/deque/Counter/"
         "defaultdict/array/str/bytes/int/float/bool/None; cyclic and shared structures; hand-picked fragile shapes; "
+        "for EVERY row of CELL_WIDTHS (read at run time) the first / last / interior code points and the neighbours just "
+        "outside, as string items and dict keys, swept over every width within +-2 of each fit threshold; "
         "each x option sets (indent_size, expand_all, max_length, max_string) x the widths at which some line's fit "
         "decision flips (+-1) and random widths up to %d; synthetic well-formed and ill-formed Node/_Line objects. "
         "distinct = distinct canonical requests" % ([1, "a", "あ", None], 4 if quick else 6, 60 if quick else 200)
